@@ -360,7 +360,7 @@ def candidates_by_class(design, md):
     naming site (implicit signals of unconnected ports, of un-named / named no-connects, per-member names under such a port
     when it is bundle-valued, array elements, pair members, flattened bundle members), and the inst_port names of ordinarily
     connected ports (never built: decoys)"""
-    hot = dict(implicit=[], nc_unnamed=[], nc_named=[], member=[], array=[], pair=[], bundle=[])
+    hot = dict(implicit=[], nc_unnamed=[], nc_named=[], member=[], member_array=[], array=[], pair=[], bundle=[])
     cold = []
     for x in md["insts"]:
         bp = bports(design, x["of"])
@@ -383,7 +383,9 @@ def candidates_by_class(design, md):
                     cls = None
                 (hot[cls] if cls else cold).append(base)
                 if port in bp:
-                    (hot["member"] if cls else cold).extend(f"{base}_{'_'.join(p)}" for p, w in bpaths(design, bp[port]))
+                    # under a no-connect on an Instance ARRAY these are built by portrefs.noconn_array_bundle (a site of its own)
+                    mcls = "member_array" if (x["n"] > 0 and cls in ("nc_unnamed", "nc_named")) else "member"
+                    (hot[mcls] if cls else cold).extend(f"{base}_{'_'.join(p)}" for p, w in bpaths(design, bp[port]))
     for b, k, port in md.get("bundles", []):
         hot["bundle"] += [f"{b}_{'_'.join(p)}" for p, w in bpaths(design, k)]
     allhot = set(n for v in hot.values() for n in v)
@@ -545,11 +547,18 @@ def adversarial(design, r, rounds=2):
             md = d["mods"][mi]
             # a dissolved object named like a PART of another dissolved object (Instance Bundle `d_p` beside Instance Bundle `d`):
             # while the one is replaced the other is still pending in its container
-            dis = dissolvables(d, md)
-            if len(dis) >= 2 and r.random() < 0.5:
-                x = r.choice(dis)
-                same = [y for y in dis if y[2] == x[2] and y[1] != x[1]]
-                y = r.choice(same) if (same and r.random() < 0.7) else r.choice([y for y in dis if y[1] != x[1]])
+            for _ in range(2):
+                dis = dissolvables(d, md)
+                if len(dis) < 2 or r.random() >= 0.6:
+                    continue
+                byc = {}
+                for t in dis:
+                    byc.setdefault(t[2], []).append(t)
+                multi = [c for c in sorted(byc) if len(byc[c]) >= 2]
+                if multi and r.random() < 0.75:      # two of one kind: both leave in the same pass
+                    x, y = r.sample(byc[r.choice(multi)], 2)
+                else:
+                    x, y = r.sample(dis, 2)
                 new = r.choice(x[3]) + "_" * r.choice([0, 0, 0, 1])
                 if new not in designer_names(md) and y[1] in designer_names(md):
                     rename(d, mi, y[0], y[1], new)
@@ -561,10 +570,15 @@ def adversarial(design, r, rounds=2):
             objs = ([("sig", s[0]) for s in md["sigs"]] * 3 + [("port", p[0]) for p in md["ports"]] +
                     [("inst", x["name"]) for x in md["insts"]] + [("bundle", b[0]) for b in md.get("bundles", [])] +
                     [("nc", s) for s in nc_sites(md)] * 2)
-            for _ in range(r.randint(1, 4)):
-                kind, old = r.choice(objs)
-                # the kind of naming site first, then one of its names: no kind is crowded out by the many bundle members
-                pool = hotc[r.choice(sorted(hotc))] if (hot and (not cold or r.random() < 0.85)) else cold
+            # per kind of naming site present in the Module one directed attempt with probability 1/2 (no kind is crowded out
+            # by the many bundle members), then 1-3 undirected ones (any kind, decoys, no-connect names)
+            plan = [c for c in sorted(hotc) if r.random() < 0.5] + [None] * r.randint(1, 3)
+            for c in plan:
+                kind, old = r.choice(objs if c is None else ([o for o in objs if o[0] != "nc"] or objs))
+                if c is not None:
+                    pool = hotc[c]
+                else:
+                    pool = hotc[r.choice(sorted(hotc))] if (hot and (not cold or r.random() < 0.85)) else cold
                 new = r.choice(pool) + "_" * r.choice([0, 0, 0, 1, 2])
                 if r.random() < 0.08:       # differs from what the elaborator builds by case alone: no clash
                     new = new.swapcase()
@@ -644,6 +658,8 @@ def gen_structured(r):
         # portrefs.noconn_array_bundle, which invents one signal per scalar member
         bpc = nc() if r.random() < 0.5 else ["bun", r.choice([b[0] for b in top["bundles"] if b[1] == k])]
         top["insts"].append(dict(name="arr", n=n, of=["mod", 0], conns=[["a", a], ["b", r.choice([sc(), nc()])], ["bp", bpc]]))
+        if r.random() < 0.4:      # a second Instance Array in the same Module
+            top["insts"].append(dict(name="arq", n=2, of=["mod", 1], conns=[["a", sc()], ["b", r.choice([sc(), nc()])]]))
     if "pair" in feats:
         top["insts"].append(dict(name="pr", n=0, pair=True, of=["mod", 1],
                                  conns=[["a", ["bun", "dd"]], ["b", r.choice([sc(), nc()])]]))
